@@ -201,7 +201,7 @@ Proof.
   - (* a command line of the ex model *)
     assert (H0 : DRel (xdisk x) (clear_written (xs x)) e) by (split; [exact RE|]; split; [exact R | exact DK]).
     destruct (step_ex_command D.ebuf (DRel (xdisk x)) drun1 (DRel_same _) (DRel_edit _) (DRel_bump _) (DRel_undo _) (DRel_save _)
-                rvalid rfind filter readfile curpath fuel ln _ e H0) as (acts & (RE1 & R1 & DK1) & _).
+                any_act (fun _ _ _ => eq_refl) rvalid rfind filter readfile curpath fuel ln _ e (line_ok_any fuel ln) H0) as (acts & (RE1 & R1 & DK1) & _).
     eexists. split; [exact RE1|]. split; [exact R1 | exact DK1].
   - (* write to the own path *)
     exists (D.run_dop (D.run_dop e (D.DSaveOwn b en)) D.DBump). split; [apply reach_step, reach_step, RE|].
